@@ -231,7 +231,7 @@ def check_case(ctx, case):
 def run_shard(ctx):
     acc = ctx.acc
     rng = ctx.rng("cont")
-    n = 2500 if ctx.quick() else 80000
+    n = 9000 if ctx.quick() else 200000
     for j in range(n):
         if ctx.out_of_time():
             acc.notes.append("time budget reached after %d docs" % j)
